@@ -115,6 +115,14 @@ class Index:
         self.bin_size_x = (xmax - self.xmin) / bins_per_side
         self.bin_size_y = (ymax - self.ymin) / bins_per_side
 
+        # Vertices that all share one coordinate give that axis no extent beyond the
+        # shim, and the shim itself is lost to rounding at large coordinate values.
+        # Cells still need a non-zero size; every vertex then falls in the first bin.
+        if self.bin_size_x <= 0:
+            self.bin_size_x = 1.0
+        if self.bin_size_y <= 0:
+            self.bin_size_y = 1.0
+
         # Initialize the "reverse" lookup list:
         if reverse:
             self.lookup = [0 for temp_var in range(2 * self.path_count)]
